@@ -309,6 +309,20 @@ func c14ParseBack(f c14Fields, e c14Enc, fail func(site, aspect, detail string))
 		fail(c14KC+".FromBytes", "error-on-own-blob", perr.Error())
 		return
 	}
+	if c14Ctx != nil {
+		c14Ctx.ReusedInput(c14KC+".FromBytes", e.Blob, func(b []byte) (r string) {
+			x := &kcl.KeyCredential{}
+			h.Guard(func() {
+				if err := x.FromBytes(b); err != nil {
+					r = "error: " + err.Error()
+					return
+				}
+				out, _ := x.ToBytes()
+				r = h.Hex(out)
+			})
+			return r
+		}, map[string]interface{}{"blob_bytes": len(e.Blob)})
+	}
 	c14Compare(kc, f, e, fail)
 	var re []byte
 	var err error
@@ -339,7 +353,10 @@ type c14Kept struct {
 	smp  map[string]interface{}
 }
 
+var c14Ctx *h.Ctx
+
 func c14Cases(c *h.Ctx) error {
+	c14Ctx = c
 	own := map[string]int{}
 	var kept []c14Kept
 	ncred, ncki, ndnb := 0, 0, 0
